@@ -7,6 +7,44 @@ def mapOutcome {α β : Type} (f : α → Outcome β) : List α → Outcome (Lis
   | [] => .ok []
   | a :: as => f a >>= fun b => mapOutcome f as >>= fun bs => .ok (b :: bs)
 
+/-- tail-recursive twin of `mapOutcome` (accumulator, reversed at the end): what compiled code runs, by the proved equation
+`mapOutcome_eq_TR` below (`@[csimp]`); `mapOutcome` itself recurses once per element and overflows the stack of the compiled
+driver beyond about 10^7 elements -/
+def mapOutcomeTR.go {α β : Type} (f : α → Outcome β) : List α → List β → Outcome (List β)
+  | [], acc => .ok acc.reverse
+  | a :: as, acc =>
+    match f a with
+    | .ok b => mapOutcomeTR.go f as (b :: acc)
+    | .err e => .err e
+    | .panic k => .panic k
+
+def mapOutcomeTR {α β : Type} (f : α → Outcome β) (l : List α) : Outcome (List β) := mapOutcomeTR.go f l []
+
+theorem mapOutcomeTR_go_eq {α β : Type} (f : α → Outcome β) : ∀ (l : List α) (acc : List β),
+    mapOutcomeTR.go f l acc = (mapOutcome f l >>= fun bs => .ok (acc.reverse ++ bs)) := by
+  intro l
+  induction l with
+  | nil => intro acc; simp [mapOutcomeTR.go, mapOutcome]
+  | cons a as ih =>
+    intro acc
+    unfold mapOutcomeTR.go mapOutcome
+    cases h : f a with
+    | ok b =>
+      simp only [Outcome.bind_ok]
+      rw [ih]
+      cases mapOutcome f as with
+      | ok bs => simp
+      | err e => simp
+      | panic k => simp
+    | err e => simp
+    | panic k => simp
+
+@[csimp] theorem mapOutcome_eq_TR : @mapOutcome = @mapOutcomeTR := by
+  funext α β f l
+  unfold mapOutcomeTR
+  rw [mapOutcomeTR_go_eq]
+  cases mapOutcome f l <;> simp
+
 def flatMapOutcome {α β : Type} (f : α → Outcome (List β)) : List α → Outcome (List β)
   | [] => .ok []
   | a :: as => f a >>= fun b => flatMapOutcome f as >>= fun bs => .ok (b ++ bs)
